@@ -147,8 +147,16 @@ func (s *IndexedStore) dataKey(id string) string {
 // /<indexesPrefix>/id/<value> -- contains the object ID
 //
 // As such to list all handlers in ID sorted order use the /<indexesPrefix>/id/ directory.
+//
+// The value is appended verbatim: cleaning it as a path would collapse values
+// such as "." or ".." onto the index directory itself, where list never looks.
 func (s *IndexedStore) indexKey(index, value string) string {
-	return path.Join(s.indexesPrefix, index, value)
+	return s.indexDir(index) + value
+}
+
+// Create the key prefix under which all entries of an index live.
+func (s *IndexedStore) indexDir(index string) string {
+	return path.Join(s.indexesPrefix, index) + "/"
 }
 
 func (s *IndexedStore) Get(id string) (o BinaryObject, err error) {
@@ -329,7 +337,7 @@ func (s *IndexedStore) ReverseListTx(tx ReadOnlyTx, index, pattern string, offse
 
 func (s *IndexedStore) list(tx ReadOperator, index, pattern string, offset, limit int, reverse bool) ([]BinaryObject, error) {
 	// List all object ids sorted by index
-	ids, err := tx.List(s.indexKey(index, "") + "/")
+	ids, err := tx.List(s.indexDir(index))
 	if err != nil {
 		return nil, err
 	}
@@ -415,7 +423,7 @@ func (s *IndexedStore) RebuildTx(tx Tx) error {
 
 // deleteIndex deletes all indexes entries.
 func (s *IndexedStore) deleteIndex(tx Tx, index string) error {
-	entries, err := tx.List(s.indexKey(index, "") + "/")
+	entries, err := tx.List(s.indexDir(index))
 	if err != nil {
 		return err
 	}
